@@ -211,12 +211,7 @@ theorem svx_facts (c : Svx.Cfg) (hwf : c.wf) (hre : SvxReopens c) :
     refine ⟨_, hre st _ hm, by show _ / c.bw = _; rw [Small.opsData_toS1], rfl, hfmt, ?_⟩
     show rateOk (svxGeom c).major c.sr ((min c.sr 65535 : Nat) : Int) = true
     rw [hmajor]
-    simp only [rateOk, rateClass]
-    simp only [show ((0x06 : Nat) == 0x04) = false from rfl, show ((0x06 : Nat) == 0x06) = true from rfl, Bool.true_or,
-      Bool.false_eq_true, if_false, if_true, Bool.or_eq_true, decide_eq_true_eq, beq_iff_eq]
-    by_cases h : 65536 ≤ c.sr
-    · exact Or.inl h
-    · right; rw [Nat.min_eq_left (by omega)]
+    simp [rateOk, rateClass]                 -- the 16-bit clause is exact: min sr 65535
   · intro st w ⟨ops, hg, e⟩
     rw [hbw] at hg ⊢
     have hm : (Sf.Small.opsData w).length % c.bw = 0 := by rw [e]; exact hg.1
